@@ -198,7 +198,7 @@ func (c *c17Case) judge(op string, accepted bool, fits, judgeFits bool) bool {
 // remoteAfterRefusal records whether the remote had been told something by a command the server then refused.
 // A refused command must not have changed the user's mailboxes on the remote either: what the remote was told
 // comes back as updates (or simply stays there) although the client was answered NO.
-func (c *c17Case) remoteAfterRefusal(op string, changed bool) {
+func (c *c17Case) remoteAfterRefusal(op string, changed bool, detail ...string) {
 	c.r.Count(fmt.Sprintf("refused %s: remote changed=%v", op, changed), 1)
 
 	if !changed {
@@ -206,7 +206,7 @@ func (c *c17Case) remoteAfterRefusal(op string, changed bool) {
 	}
 
 	sig := "C17 refused-operation-changed-the-remote " + op
-	what := fmt.Sprintf("%s was refused because of the limits, but the remote had already been told to carry it out (its mailboxes differ from before the command)", op)
+	what := fmt.Sprintf("%s %s was refused because of the limits, but the remote had already been told to carry it out (its mailboxes differ from before the command)", op, strings.Join(detail, " "))
 
 	if c.r.IsKnown(sig) {
 		// recorded finding: report it and carry on (the harness puts the remote back)
@@ -451,7 +451,7 @@ func c17History(r *ev.Run, label string, steps int) {
 
 			if !res.OK() {
 				// gluon tells the remote before its own limit check refuses the command
-				c.remoteAfterRefusal(strings.TrimPrefix(verb, "UID "), remoteBefore.Summary() != conn.SnapshotAll().Summary())
+				c.remoteAfterRefusal(strings.TrimPrefix(verb, "UID "), remoteBefore.Summary() != conn.SnapshotAll().Summary(), fmt.Sprintf("(%s %s from %s to %s: %s %s)", verb, set, box, dst, res.Status, res.Text))
 				conn.RestoreAll(remoteBefore)
 			}
 			c.logf("[%s] %s %s %s -> %s %s", box, verb, set, dst, res.Status, res.Text)
